@@ -110,6 +110,9 @@ class Unit:
         self.stops = []        # (line, guard_text, stmt_text)
         self.commons = []
         self.saves = []
+        self.call_sites = []   # (line, callee, tuple of enclosing block-IF guards, logical-IF guard or None)
+        self.persistent = []   # (line, text): declarations giving a local the SAVE attribute
+        self.stmts = []        # (line, text) of every statement of the unit
         self.entries = []
         self.nstmts = 0
 
@@ -165,6 +168,7 @@ def scan_file(path, relpath=None, src=None):
             cur = None if not re.match(r'^END\s*$', t, re.I) or True else cur
             continue
         cur.nstmts += 1
+        cur.stmts.append((st.line, t))
         up = t.upper()
         if re.match(r'^COMMON\b', up):
             cur.commons.append(norm(t))
@@ -192,6 +196,15 @@ def scan_file(path, relpath=None, src=None):
                               norm(body)))
         for c in CALL_RE.findall(t):
             cur.calls.add(c.upper())
+            cur.call_sites.append((st.line, c.upper(), tuple(block_ifs),
+                                   norm(g) if g is not None else None))
+        # locals that keep their value between calls: SAVE attribute / statement,
+        # DATA, or an initialiser in a type declaration (implies SAVE)
+        if re.match(r'^(SAVE|DATA)\b', up) or (
+                '::' in t and (re.search(r',\s*SAVE\b', up.split('::')[0]) or (
+                    '=' in t.split('::', 1)[1] and
+                    not re.search(r'\bPARAMETER\b', up.split('::')[0])))):
+            cur.persistent.append((st.line, norm(t)))
         for c in IDENT_CALL_RE.findall(t):
             cur.idents.add(c.upper())
     return units
@@ -341,3 +354,53 @@ def f2py_signatures(path):
         opt = [a for a in u['args'] if a in dimvars and a not in u['out']]
         sigs[name] = req + opt
     return sigs
+
+
+
+def persistent_names(u):
+    """Names of the locals of unit `u` that keep their value between calls (None:
+    all of them -- a bare SAVE statement)."""
+    names = set()
+    for line, t in u.persistent:
+        if re.match(r'^SAVE$', t):
+            return None
+        if t.startswith('SAVE'):
+            names |= {n for n in re.split(r'[,/]', t[4:]) if n}
+        elif t.startswith('DATA'):
+            # DATA a, b /.../, c /.../
+            body = re.sub(r'/[^/]*/', ';', t[4:])
+            for part in body.split(';'):
+                for n in part.split(','):
+                    n = re.sub(r'\(.*$', '', n).strip()
+                    if n:
+                        names.add(n)
+        elif '::' in t:
+            for ent in re.split(r',(?![^()]*\))', t.split('::', 1)[1]):
+                n = re.sub(r'[=(].*$', '', ent).strip()
+                if n:
+                    names.add(n)
+    return names
+
+
+def written_names(u):
+    """Names assigned, read into, or handed to a CALL (which may assign them) by a
+    statement of the unit other than its declarations."""
+    out = set()
+    for line, t in u.stmts:
+        up = norm(t)
+        if up.startswith(('DATA', 'SAVE')) or '::' in up:
+            continue
+        g, rest = guard_of(t) if IF_RE.match(t) else (None, t)
+        body = norm(rest if g is not None else t)
+        m = re.match(r'^([A-Z_][A-Z0-9_]*)(\(.*?\))?=(?!=)', body)
+        if m and not body.startswith(('DO', 'IF(')):
+            out.add(m.group(1))
+        m = re.match(r'^DO(\d+)?,?([A-Z_][A-Z0-9_]*)=', body)
+        if m:
+            out.add(m.group(2))
+        m = re.match(r'^CALL[A-Z_][A-Z0-9_]*\((.*)\)$', body)
+        if m:
+            out |= set(re.findall(r'[A-Z_][A-Z0-9_]*', m.group(1)))
+        if body.startswith('READ'):
+            out |= set(re.findall(r'[A-Z_][A-Z0-9_]*', body[4:]))
+    return out
